@@ -139,6 +139,8 @@ def guarded(fun, *args):
         return ('err', 'EStop')
     except Hang:
         return ('err', 'ELoop')
+    except Exception:       # pylint: disable=broad-except
+        return ('err', 'EOther')
     finally:
         signal.setitimer(signal.ITIMER_REAL, 0)
         signal.signal(signal.SIGALRM, old)
@@ -170,8 +172,12 @@ def walk_on_fake_adjacency(LT, pairs, first):
         return ('err', 'ELoop')
     except StopIteration:
         return ('err', 'EStop')
-    except (KeyError, AssertionError):
+    except AssertionError:
         return ('err', 'EAssert')
+    except LT.LatticeError:
+        return ('err', 'ELattice')
+    except Exception:       # pylint: disable=broad-except
+        return ('err', 'EOther')
     finally:
         signal.setitimer(signal.ITIMER_VIRTUAL, 0)
         signal.signal(signal.SIGVTALRM, old)
